@@ -1,8 +1,9 @@
 (* C11 -- path filter verdicts follow the documented glob, ignore and extension rules.
-   Statements hold for an arbitrary glob matcher gm.  Proofs: Globset/GlobsetProofs.v, Globset/CliLayer.v *)
+   Statements hold for an arbitrary glob matcher gm; the last four are about the concrete glob token semantics the
+   correspondence uses.  Proofs: Globset/GlobsetProofs.v, Globset/CliLayer.v, Glob/GlobLemmas.v *)
 From Coq Require Import List NArith String Ascii Bool.
 From WX Require Import Base.Bytes Glob.Glob Glob.Gitignore Ignore.IgnoreFilter Globset.Globset Globset.GlobsetProofs
-  Gen.FsKinds_gen Gen.CliFilter_gen Globset.CliLayer.
+  Gen.FsKinds_gen Gen.CliFilter_gen Globset.CliLayer Glob.GlobLemmas.
 Import ListNotations.
 Open Scope string_scope.
 Open Scope list_scope.
@@ -67,3 +68,21 @@ Example C11_example :
   gs_check_event gm_glob f [("/p/watched.txt", false)] = true /\
   gs_check_event gm_glob f [("/p/src/a.txt", false); ("/p/b.rs", false)] = true.
 Proof. vm_compute. repeat split; reflexivity. Qed.
+
+(* ---- the glob grammar itself (token semantics of the model, compared with globset on every run) *)
+Theorem C11_glob_literal : forall s t, tmatch (lits s) t = String.eqb s t.
+Proof. exact literal_matches_itself_only. Qed.
+Print Assumptions C11_glob_literal.
+
+Theorem C11_glob_star_stays_in_its_component : forall s, tmatch [TStar] s = negb (has_slash s).
+Proof. exact star_alone. Qed.
+Print Assumptions C11_glob_star_stays_in_its_component.
+
+Theorem C11_glob_question_mark : forall s, tmatch [TAny] s = match s with String c EmptyString => negb (is_sep c) | _ => false end.
+Proof. exact any_alone. Qed.
+Print Assumptions C11_glob_question_mark.
+
+Theorem C11_glob_recursive_prefix : forall name s,
+  tmatch (TRecPre :: lits name) s = String.eqb name s || after_some_slash (String.eqb name) s.
+Proof. exact recursive_prefix. Qed.
+Print Assumptions C11_glob_recursive_prefix.
